@@ -77,7 +77,7 @@ struct C18Clean : Scenario {
       k.put_file(QmailEnv::qpath("todo", n, false), "env", 0644, UID_QMAILQ, GID_QMAIL); k.put_file(QmailEnv::qpath("info", n, true), "Fs@x", 0600, UID_QMAILS, GID_QMAIL);
     }
     size_t nb = (g_requests.size() + per_batch - 1) / per_batch;
-    int b = w.ex->choose_n((int) nb + 1, BK_FREE);
+    int b; { size_t lo = 0, size = (size_t) nb + 1; while (size > 1) { size_t span = 1; while (span * 240 < size) span *= 240; size_t cnt = (size + span - 1) / span; size_t d = (size_t) w.ex->choose_n((int) cnt, BK_FREE); lo += d * span; size = std::min(span, size - d * span); } b = (int) lo; }   // more batches than one choice point may have alternatives: several digits
     if (b == 0) { fault_batch = true; lo = hi = 0; }
     else { lo = (b - 1) * per_batch; hi = std::min(g_requests.size(), lo + per_batch); }
     next = lo;
